@@ -32,7 +32,21 @@ class AA(A):                   # a subclass instance must not answer a request f
     w: int = 0
 
 
-TYPES = [A, B, C, D, AA]
+class Flag(State):             # user-defined truthiness: instances may be falsy
+    v: int = 0
+
+    def __bool__(self):
+        return self.v % 2 == 1
+
+
+class Batch(State):            # ... or empty by __len__
+    v: int = 0
+
+    def __len__(self):
+        return self.v % 2
+
+
+TYPES = [A, B, C, D, AA, Flag, Batch]
 
 
 class Disp:
